@@ -121,15 +121,15 @@ class Sender:
                 txn_manager = self._txn_manager
                 muted_partitions = self._muted_partitions
                 if txn_manager is not None and txn_manager.transactional_id is not None:
-                    if txn_manager.has_abortable_error():
-                        # The transaction can only be aborted. What was not
-                        # sent yet never will be: its partition may have
-                        # been refused by the coordinator, and a write to a
-                        # partition that is not part of the transaction is
-                        # not covered by the abort
-                        self._message_accumulator.fail_undrained(
-                            txn_manager.wait_for_transaction_end().exception()
-                        )
+                    txn_error = txn_manager.abortable_error()
+                    if txn_error is not None:
+                        # The transaction can only be aborted (or is being
+                        # aborted already). What was not sent yet never will
+                        # be: its partition may have been refused by the
+                        # coordinator, and a write to a partition that is
+                        # not part of the transaction is not covered by the
+                        # abort
+                        self._message_accumulator.fail_undrained(txn_error)
                     if txn_task is None or txn_task.done():
                         txn_task = self._maybe_do_transactional_request()
                         if txn_task is not None:
